@@ -176,7 +176,14 @@ MatchD(r, s, i, j) == Null(Residual(r, s, i, j), Bol(s, j), Eol(s, j))
 Core(r) == Norm(r, FALSE)
 Matches(r, s) == MatchD(Core(r), s, 0, Len(s))                       \* regexp-matches?
 Spans(s) == {<<i, j>> \in (0..Len(s)) \X (0..Len(s)) : i <= j}
-Search(r, s) == \E sp \in Spans(s) : MatchD(Core(r), s, sp[1], sp[2]) \* regexp-search finds something
+SearchDef(r, s) == \E sp \in Spans(s) : MatchD(Core(r), s, sp[1], sp[2]) \* regexp-search finds something: some substring matches
+\* the same, sharing the residuals of one start position (RegexMC checks Search = SearchDef)
+Residuals(q, s, i) ==      \* <<residual after s[i+1..j] : j = i..Len(s)>>
+   LET f[k \in i..Len(s)] == IF k = i THEN <<q>>
+                             ELSE LET p == f[k - 1] IN Append(p, Deriv(p[Len(p)], s[k], Bol(s, k - 1), Eol(s, k - 1)))
+   IN  f[Len(s)]
+Search(r, s) == \E i \in 0..Len(s) : LET rs == Residuals(Core(r), s, i)
+                                      IN  \E k \in 1..Len(rs) : Null(rs[k], Bol(s, i + k - 1), Eol(s, i + k - 1))
 AnyStar == <<"star", <<"any">>>>
 SearchAsMatch(r, s) == MatchD(<<"seq", AnyStar, <<"seq", Core(r), AnyStar>>>>, s, 0, Len(s))
 
